@@ -2,6 +2,7 @@ package main
 
 import (
 	"fmt"
+	"math"
 	"sort"
 	"strings"
 	"unicode/utf8"
@@ -31,6 +32,11 @@ func c16Containers() []model.Value {
 		model.Hash(he(model.Float(0.1), model.Int(1)), he(model.Float(0.2), model.Int(2)), he(model.Float(0.3), model.Int(3)), he(model.Float(-0.5), model.Int(4))),
 		model.Hash(he(model.Int(256), model.Str("i")), he(model.Int(512), model.Str("j")), he(model.Int(65536), model.Str("k")), he(model.Int(4294967296), model.Str("l")), he(model.Int(-256), model.Str("m"))),
 		model.Hash(he(model.Str("ab"), model.Int(1)), he(model.Str("ba"), model.Int(2)), he(model.Str("a"), model.Int(3)), he(model.Str("b"), model.Int(4)), he(model.Str(""), model.Int(5))),
+		// float keys and elements that agree in their first six (or fifteen) decimals are distinct keys and elements
+		model.Hash(he(model.Float(0.1234567), model.Str("a")), he(model.Float(0.1234568), model.Str("b")), he(model.Float(0.12345675), model.Str("c"))),
+		model.Hash(he(model.Float(1.5), model.Str("x")), he(model.Float(1.5000001), model.Str("y")), he(model.Float(math.Nextafter(1.5, 2)), model.Str("z")), he(model.Float(1.4999999), model.Str("w"))),
+		model.Hash(he(model.Float(1000000.5), model.Int(1)), he(model.Float(1000000.25), model.Int(2)), he(model.Float(123456789.125), model.Int(3)), he(model.Float(-1000000.5), model.Int(4)), he(model.Int(1000000), model.Int(5))),
+		model.Arr(model.Float(0.1234567), model.Float(0.1234568), model.Float(math.Nextafter(2.5, 3))),
 		// arrays as elements: present is present, a prefix or an empty array is not
 		model.Arr(model.Arr(model.Int(1), model.Int(2)), model.Arr(model.Int(3))), model.Arr(model.Arr(), model.Int(1)), model.Arr(model.Arr(model.Arr(model.Str("x"), model.Str("y")), model.Int(2)), model.Str("[1]")),
 		// entries and elements that are null, false, zero and empty are entries and elements all the same
@@ -116,6 +122,19 @@ func c16(c *ev.Ctx) {
 				keys := append([]model.Value{}, probeKeys...)
 				for _, e := range v.H {
 					keys = append(keys, e.Key)
+					// near misses of every numeric key: a step in the seventh decimal, one unit in the last place, the other numeric kind
+					switch e.Key.K {
+					case model.KFloat:
+						f := e.Key.F
+						keys = append(keys, model.Float(f+1e-7), model.Float(f-1e-7), model.Float(math.Nextafter(f, math.Inf(1))), model.Float(math.Nextafter(f, math.Inf(-1))))
+						if f == math.Trunc(f) && math.Abs(f) < 1e15 {
+							keys = append(keys, model.Int(int64(f)))
+						}
+					case model.KInt:
+						if e.Key.I > -1<<50 && e.Key.I < 1<<50 {
+							keys = append(keys, model.Float(float64(e.Key.I)), model.Float(float64(e.Key.I)+1e-7), model.Float(float64(e.Key.I)-1e-7))
+						}
+					}
 				}
 				for ki, k := range keys {
 					kl, ok := gen.LitOf(k)
@@ -133,6 +152,11 @@ func c16(c *ev.Ctx) {
 				var cands []model.Value
 				if v.K == model.KArr {
 					cands = append(cands, v.A...)
+					for _, e := range v.A {
+						if e.K == model.KFloat {
+							cands = append(cands, model.Float(e.F+1e-7), model.Float(e.F-1e-7), model.Float(math.Nextafter(e.F, math.Inf(1))), model.Float(math.Nextafter(e.F, math.Inf(-1))))
+						}
+					}
 					cands = append(cands, model.Int(1), model.Float(1), model.Str("1"), model.Str("a"), model.Int(99), model.Bool(true), model.Bool(false), model.Null(), model.Str(""))
 					cands = append(cands, model.Arr(), model.Arr(model.Int(1)), model.Arr(model.Int(1), model.Int(2)), model.Arr(model.Int(1), model.Int(2), model.Int(3)), model.Arr(model.Int(3)), model.Arr(model.Int(2)),
 						model.Arr(model.Arr(model.Str("x")), model.Int(2)), model.Arr(model.Arr(model.Str("x"), model.Str("y")), model.Int(2)), model.Arr(model.Arr(model.Str("x"), model.Str("y"))), model.Arr(model.Arr()), model.Hash())
